@@ -113,5 +113,20 @@ CLAIMS.update({
               "DESIGN.md §2 C17", engine="cache_seq", note=TRUST_SEQ),
 })
 
-NOT_APPLICABLE = {p: "monitor under construction in this round (see DESIGN.md build order); not claimed yet"
-                  for p in ["C08", "C10"]}
+CLAIMS.update({
+    "C08": ch("Held on every program/execution observed: >10^5 generated sequential programs per run over sender and receiver "
+              "handles (subscribe/unsubscribe/clone/close/drop/convert/publish/receive) compared step by step with a mailbox "
+              "model (routing by subscription at publish time, drop-newest only when full, Disconnected exactly when all "
+              "senders are gone and the mailbox is drained); concurrent publishers racing subscription changes checked by "
+              "interval rules and the stuck oracle (publishing never blocks, receivers do observe Disconnected).",
+              "runtime monitoring: sequential differential against a mailbox model + concurrent interval checker",
+              "DESIGN.md §2 C08", engine="topic_check", note=TRUST_SEQ),
+    "C10": ch("Held on every execution/program observed: occupancy counters asserted against the exclusion matrix inside every "
+              "guard, plain field == exclusive sections, closed scripts of blocking/async/cancelled/try_ acquisitions terminate "
+              "(stuck oracle), try_ under a held lock returns None, queued writer acquires while readers overlap; stepper "
+              "programs over the lock futures with the spontaneous re-poll oracle and an idle-lock check at the end.",
+              "runtime monitoring: guard-occupancy assertions + stuck oracle under chaos + deterministic future stepper",
+              "DESIGN.md §2 C10", engine="lock_stress"),
+})
+
+NOT_APPLICABLE = {}
